@@ -189,6 +189,23 @@ def scenarios(tier, rng):
                                            {"op": "list", "dir": "@A"}]},
                                   {"ops": [{"op": "list", "dir": "@A"}, {"op": "load", "dir": "@A", "step": 0}, {"op": "solve", "k": 2},
                                            {"op": "wait"}]}]))
+    # "continue here": restore from a backup copy with new_checkpoint_dir set to that same copy (its configuration file
+    # still names the original directory) - later saves must go to the copy
+    for kind, pname in (("VI", "forest"), ("PI", "de_moor")):
+        pspec, full = P[pname]
+        out.append(base_scenario(f"{kind}-{pname}-continue-in-the-backup-copy", kind, pname, pspec, full, 1, 2, False,
+                                 [{"ops": [{"op": "new"}, {"op": "solve", "k": 4}, {"op": "wait"}, {"op": "list", "dir": "@A"},
+                                           {"op": "copy", "src": "@A", "dst": "@B"}, {"op": "list", "dir": "@B"}]},
+                                  {"ops": [{"op": "list", "dir": "@B"}, dict(restore_op(full, new_dir="@B"), dir="@B"),
+                                           {"op": "solve", "k": 3}, {"op": "wait"}, {"op": "list", "dir": "@B"},
+                                           {"op": "list", "dir": "@A"}], "check_unchanged_A": True}]))
+    # policy iteration on a problem whose supplied initial policy is integer-typed while the action space is float-valued
+    # (half units): the stored policy - which by then contains fractional actions - must come back as it was
+    pspec, full = P["tab_intpol"]
+    out.append(base_scenario("PI-tab_intpol-integer-typed-initial-policy", "PI", "tab_intpol", pspec, full, 1, 3, False,
+                             [{"ops": [{"op": "new"}, {"op": "solve", "k": 2}, {"op": "wait"}, {"op": "list", "dir": "@A"}]},
+                              {"ops": [{"op": "list", "dir": "@A"}, restore_op(full), {"op": "solve", "k": BIG}, {"op": "wait"},
+                                       {"op": "list", "dir": "@A"}]}]))
     # error paths
     pspec, full = P["tabular"]
     out.append(base_scenario("VI-tabular-restore-without-config", "VI", "tabular", pspec, False, 1, 2, False,
